@@ -17,7 +17,7 @@ if __name__ == "__main__":
 import vlib
 from vlib import hx, unhx
 
-ITEMS = ["ctype", "strleaf", "entities", "special", "scanners_re", "consts"]
+ITEMS = ["ctype", "strleaf", "entities", "special", "scanners_re", "consts", "srcpos", "nodes"]
 LEAF = ("Paragraph", "Heading", "TableCell")
 
 
@@ -67,16 +67,18 @@ def parse_tree(toks, with_extra=False):
 
 def dump(nd, sp=True):
     out = []
-
-    def go(x):
+    st = [nd]
+    while st:
+        x = st.pop()
+        if x is None:
+            out.append(")")
+            continue
         out.append("(")
         out.append(x.kind)
         out.extend(str(v) for v in (x.sp if sp else (0, 0, 0, 0)))
         out.extend(x.fields if x.kind != "FootnoteReference" else ["?", "0", "0"])
-        for c in x.ch:
-            go(c)
-        out.append(")")
-    go(nd)
+        st.append(None)
+        st.extend(reversed(x.ch))
     return " ".join(out)
 
 
@@ -144,6 +146,10 @@ def split_answer(ans):
     return parts[0].split(" "), parts[1].split(" "), parts[2].split(" ")[1:]
 
 
+def opt_on(tok, key):
+    return any(kv == key or kv == key + "=1" for kv in tok.split(","))
+
+
 def key_of(nd):
     return (nd.kind, nd.sp[0], nd.sp[2], nd.sp[3])
 
@@ -171,7 +177,7 @@ def model_lines(opts, md, ans, refs=()):
     maxref = max(len(md), 100000)
     reftoks = " ".join(f"{hx(l)} {hx(u)} {hx(t)}" for (l, u, t) in refs)
     out = []
-    fnon = "1" if "footnotes" in opts.split(",") else "0"
+    fnon = "1" if opt_on(opts, "footnotes") else "0"
     defs = []
     st = [blocks]
     while st:
@@ -203,6 +209,11 @@ def compare(b, partner, m, final):
     if partner is None:
         if eff.startswith("T") and eff.split(":")[1] == "1":
             return "agree", "paragraph detached by the task-list step"
+        a = b.parent
+        while a is not None:
+            if a.kind == "FootnoteDefinition":
+                return "dropped_def", "inside a footnote definition the footnote pass removed"
+            a = a.parent
         return "unpaired", "block has no partner in the final tree"
     want = dump_children(partner)
     # task-list effect
@@ -223,11 +234,54 @@ def compare(b, partner, m, final):
     return "mismatch", f"model {post} impl {want}"
 
 
+import re
+LABEL_RE = re.compile(rb"\[((?:[^\[\]\\]|\\.)*)\]", re.S)
+
+
+def refmaps(cases, profile="debug"):
+    """the reference map of every document, asked from the compiled parser itself: for every bracketed span L of
+    the document (the only labels a lookup can use) the document `[L]` + blank line + md is parsed; when its
+    first block is a paragraph holding exactly one Link, (L, url, title) is an entry (the model normalizes L).
+    Documents without `]:` have an empty map."""
+    qlines, owner = [], []
+    for i, (o, md) in enumerate(cases):
+        if b"]:" not in md:
+            continue
+        fm = [kv.split("=", 1)[1] for kv in o.split(",") if kv.startswith("front_matter_delimiter=")]
+        if fm and md.lstrip(b"\xef\xbb\xbf").startswith(unhx(fm[0])):
+            continue        # prepending would turn the front matter into blocks
+        seen = set()
+        for m in LABEL_RE.finditer(md):
+            lab = m.group(1)
+            if lab in seen or not lab.strip() or len(lab) > 1100:
+                continue
+            seen.add(lab)
+            bom = b"\xef\xbb\xbf" if md.startswith(b"\xef\xbb\xbf") else b""
+            qlines.append(f"parse {o} {hx(bom + b'[' + lab + b']' + bytes([10, 10]) + md[len(bom):])}")
+            owner.append((i, lab))
+    out = {}
+    if not qlines:
+        return out
+    ans = vlib.run_lines(vlib.VH[profile], qlines, timeout=1800)
+    for (i, lab), a in zip(owner, ans):
+        if not a.startswith("ok "):
+            continue
+        t = parse_tree(a[3:].split(" "))
+        if not t.ch or t.ch[0].kind != "Paragraph" or len(t.ch[0].ch) != 1 or t.ch[0].ch[0].kind != "Link":
+            continue
+        lk = t.ch[0].ch[0]
+        out.setdefault(i, []).append((lab, unhx(lk.fields[0]), unhx(lk.fields[1])))
+    return out
+
+
 def run_cases(cases, profile="debug", refs_of=None):
     """cases: list of (opts token, md bytes).  Returns list of per-block results
     (case index, block, class, detail, driver line)."""
     hl = harness_lines(cases)
     real = vlib.run_lines(vlib.VH[profile], hl, timeout=1800)
+    if refs_of is None:
+        rm = refmaps(cases, profile)
+        refs_of = lambda i: rm.get(i, ())
     jobs = []
     results = []
     for i, ((o, md), a) in enumerate(zip(cases, real)):
@@ -246,6 +300,114 @@ def run_cases(cases, profile="debug", refs_of=None):
         cls, detail = compare(b, p, m, final)
         results.append((i, b, cls, detail, line))
     return results
+
+
+ALPHA = [b"a", b" ", b"*", b"_", b"`", b"[", b"]", b"(", b")", b"<", b">", b"!", b"\\", b"&", b";", b"~", b"^", b"|", b"$",
+         b'"', b"'", b"-", b".", b":", b"@", b"w", b"\n"]
+OPTSETS = {
+    "default": "-",
+    "gfm": "strikethrough,table,autolink,tasklist,tagfilter",
+    "all": "strikethrough,table,autolink,tasklist,superscript,footnotes,description_lists,multiline_block_quotes,alerts,"
+           "math_dollars,math_code,wikilinks_title_after_pipe,underline,subscript,spoiler,greentext,smart",
+    "allb": "table,autolink,tasklist,superscript,footnotes,math_dollars,math_code,wikilinks_title_before_pipe,underline,"
+            "subscript,spoiler,smart,relaxed_tasklist_matching,relaxed_autolinks,escaped_char_spans,ignore_empty_links",
+}
+# longer fragments for the random stream: things the 27 symbols cannot spell in 6 bytes
+FRAGS = [b"http://a.b/c", b"www.a.b", b"a@b.c", b"mailto:a@b.cd", b"xmpp:a@b.c/d", b"<a href='x'>", b"</a>", b"<!-- c -->", b"<?p?>",
+         b"<!D x>", b"<![CDATA[x]]>", b"&amp;", b"&#65;", b"&#x41;", b"[^f]", b"[[u|t]]", b"[[u]]", b"$$x$$", b"$`x`$", b"---", b"...",
+         b"- [x] ", b"- [ ] ", b"\xc3\xa9", b"\xe2\x80\x9c", b"\xc2\xa0", b"\xe6\xbc\xa2", b"  \n", b"\\\n", b"\t", b"\r\n", b"](/u 't')", b"](<u v>)",
+         b"[r]", b"[r][]", b"[t][r]", b"![i][r]", b"\n\n[r]: /u 'T'\n\n", b"\n\n[^f]: note\n\n", b"# ", b"| a | b |\n|---|---|\n| ", b" | ", b"> ", b"1. ",
+         b"***", b"___", b"~~", b"||", b"^^", b"``", b"x", b"B", b"0"]
+
+
+def exhaustive(maxlen):
+    for n in range(1, maxlen + 1):
+        for t in itertools.product(ALPHA, repeat=n):
+            yield b"".join(t)
+
+
+def random_docs(rng, n):
+    out = []
+    for _ in range(n):
+        r = rng.random()
+        if r < 0.4:
+            out.append(b"".join(rng.choice(ALPHA) for _ in range(rng.choice([4, 5, 5, 6, 6, 7, 8, 10, 14]))))
+        else:
+            k = rng.choice([2, 3, 4, 5, 6, 8, 12])
+            out.append(b"".join(rng.choice(FRAGS) if rng.random() < 0.45 else rng.choice(ALPHA) for _ in range(k)))
+    return out
+
+
+def tie_inlines(c, tier, profile="debug"):
+    """correspondence `inlines.<scope>`; returns True when every compared block agrees"""
+    import docgen, shrink
+    rng = c.rng
+    thorough = tier != "quick"
+    scopes = []
+    ex = list(exhaustive(4 if thorough else 3))
+    for name, tok in OPTSETS.items():
+        scopes.append((f"exhaustive<={4 if thorough else 3}:{name}", [(tok, d) for d in ex]))
+    rd = random_docs(rng, 400000 if thorough else 24000)
+    names = list(OPTSETS)
+    scopes.append(("random strings and fragments", [(OPTSETS[names[i % 4]], d) for i, d in enumerate(rd)]))
+    dg = []
+    for _ in range(60000 if thorough else 2500):
+        o = docgen.opts_token(docgen.gen_opts(rng))
+        r = rng.random()
+        d = docgen.gen_doc(rng) if r < 0.5 else docgen.gen_malformed(rng) if r < 0.7 else "\n\n".join(docgen.inlines(rng) for _ in range(rng.randrange(1, 4)))
+        if isinstance(d, str):
+            d = d.encode("utf-8", "replace")
+        dg.append((o, d))
+    scopes.append(("docgen documents (whole block trees, reference definitions, random options)", dg))
+    all_ok = True
+    classes = {}
+    for sname, cases in scopes:
+        res = run_cases(cases, profile)
+        cnt = {}
+        for (i, b, cls, detail, line) in res:
+            cnt[cls] = cnt.get(cls, 0) + 1
+            o, md = cases[i]
+            c.count(("inl:" + o + ":").encode() + md + (line[:40].encode() if line else b""), len(md) > 2)
+            if cls in ("agree", "dropped_def", "scope"):
+                continue
+            if cls == "impl_panic":
+                c.violation("parse_document panics: " + detail[:200], {"opts": o, "md": hx(md), "line": line})
+                continue
+            all_ok = False
+            if classes.setdefault(cls, 0) < 5:
+                # shrink the document for the report
+                def bad(d, o=o, cls=cls):
+                    rr = run_cases([(o, bytes(d))], profile)
+                    return any(x[2] == cls for x in rr)
+                try:
+                    small = bytes(shrink.ddmin(list(md), bad)) if len(md) < 400 else md
+                except Exception:
+                    small = md
+                c.problem("correspondence", "inlines." + cls, f"[{sname}] opts={o} md={small!r}: {detail[:1500]}", {"opts": o, "md": hx(small), "line": f"inl {o} {hx(small)}"})
+            classes[cls] += 1
+        c.cov["correspondences"]["inlines: " + sname] = {"documents": len(cases), "blocks": sum(cnt.values()), **cnt}
+    c.cov["inlines_scope"] = ("every option the inline phase reads; Unicode classes and case folding beyond ASCII answered by the compiled "
+                              "library per document; reference map asked from the compiled parser (documents whose front matter prevents "
+                              "the query keep an empty map); ref budget not threaded across blocks; numbering of resolved footnote "
+                              "references left to Model/Footnotes.v; NUL in content OutOfScope")
+    return all_ok
+
+
+def main(tier):
+    c = vlib.Check("INLINES_TIE", tier)
+    c.phase_translator(ITEMS)
+    c.phase_proofs(file="Inlines")
+    if not c.phase_builds(("debug",)):
+        c.finish(rule="build failed")
+    tie_inlines(c, tier)
+    c.finish(level="proof",
+             rule="per leaf block (Paragraph, Heading, TableCell) of every document: the model run on the block content after the block phase "
+                  "must print the same children (kinds, payloads, source positions) as the final tree of the compiled parser, and report "
+                  "the same task-list effect; documents: all strings up to length 3 (4 thorough) over 27 inline bytes under 4 option sets, "
+                  "random strings/fragments, docgen documents with random options; non-trivial = document longer than 2 bytes",
+             trusted_base=["Coq 8.16 kernel + extraction", "rustc", "harness/src/ops_inlines.rs + ops_blocks.rs and ocaml/d_inlines.ml print trees in the same layout",
+                           "Unicode oracles (is_whitespace, is_punctuation|is_symbol, default_case_fold) answered by the compiled library",
+                           "the pairing of blocks between the two trees (kind, start line, end line, end column) in tools/checks/inlines_tie.py"])
 
 
 if __name__ == "__main__":
